@@ -152,12 +152,12 @@ def run_config(c: dict) -> dict:
         rec, M, Minit, out, init, x_ok, i_ok = run(c["maxiters"], c["stoptol"], c["printitn"], c["fixsigns"], c["init"])
     except Exception as e:
         tr["ev"].append({"op": "start", "args": {"cfg": {"N": N, "dimorder": c["dimorder"], "optdims": c["optdims"],
-                                                          "maxiters": c["maxiters"]}, "ids": []},
+                                                          "maxiters": c["maxiters"], "generic": bool(rank < min(shape) and len([d for d in c["dimorder"] if d in c["optdims"]]) >= 2)}, "ids": []},
                          "ret": {"raised": f"{type(e).__name__}: {e}"[:150]}})
         return tr
     init_ids = [ids(f) for f in Minit.factor_matrices]
     tr["ev"].append({"op": "start", "args": {"cfg": {"N": N, "dimorder": c["dimorder"], "optdims": c["optdims"],
-                                                     "maxiters": c["maxiters"]}, "ids": init_ids}})
+                                                     "maxiters": c["maxiters"], "generic": bool(rank < min(shape) and len([d for d in c["dimorder"] if d in c["optdims"]]) >= 2)}, "ids": init_ids}})
     for n, cid in rec.calls:
         tr["ev"].append({"op": "kernel", "args": {"n": n, "ids": cid}})
     # observations on the returned triple, recomputed independently with numpy on dense arrays
